@@ -420,3 +420,753 @@ Proof.
   eapply asteps_arun; eauto using done_stuck.
   apply asteps_measure in Hk. unfold measure in Hk. simpl in Hk. lia.
 Qed.
+
+(* ================================================================== effects of a step *)
+Definition ev_of (a : action) (i : nat) (st : pst) : event :=
+  match a with
+  | ACasInit => EvCasInit i (is_st st UNINIT)
+  | AStoreReady => EvStoreReady i
+  | ACasFini => EvCasFini i (is_st st READY)
+  | ALoadReady => EvLoad i (is_st st READY)
+  | AWrite f => EvW i f
+  | ARead f => EvR i f
+  | _ => EvTau i
+  end.
+Definition st_of (a : action) (st : pst) : pst :=
+  match a with
+  | ACasInit => if is_st st UNINIT then INIT else st
+  | AStoreReady => READY
+  | ACasFini => if is_st st READY then GONE else st
+  | _ => st
+  end.
+(* does the action fail (die) on the st value *)
+Definition st_fails (a : action) (st : pst) : bool :=
+  match a with
+  | ACasInit => negb (is_st st UNINIT)
+  | ACasFini | ALoadReady => negb (is_st st READY)
+  | _ => false
+  end.
+Definition st_acquires (a : action) (st : pst) : bool :=
+  match a with
+  | AStoreReady => true
+  | ACasFini | ALoadReady => is_st st READY
+  | _ => false
+  end.
+
+Lemma fs_exec_flags o t fl :
+  let t' := snd (fs_exec o t fl) in
+  t_ready t' = t_ready t /\ t_seen t' = t_seen t /\ t_dead t' = t_dead t /\ t_fin t' = t_fin t.
+Proof. destruct o; simpl; auto. destruct (Z.eqb tid 0); simpl; auto. Qed.
+
+Lemma tstep_eff mv i t st fl r a rest cs :
+  tstep mv i t st fl = Some r -> fetch mv t = Some (a, rest, cs) ->
+  r_ev r = ev_of a i st /\ r_st r = st_of a st /\
+  (st_fails a st = true -> t_dead (r_thr r) = true /\ t_cur (r_thr r) = []) /\
+  (t_seen (r_thr r) = t_seen t \/ (t_seen (r_thr r) = true /\ st_acquires a st = true)) /\
+  (st_acquires a st = true -> t_seen (r_thr r) = true).
+Proof.
+  unfold tstep. intros H F. rewrite F in H. inversion H; subst; clear H.
+  destruct a; simpl.
+  - destruct (is_st st UNINIT); simpl; repeat split; auto; discriminate.
+  - repeat split; auto; discriminate.
+  - destruct (is_st st READY); simpl; repeat split; auto; discriminate.
+  - destruct (is_st st READY); simpl; repeat split; auto; discriminate.
+  - repeat split; auto; discriminate.
+  - repeat split; auto; discriminate.
+  - destruct (local_exec l t) eqn:L; simpl; repeat split; auto; try discriminate.
+    apply local_exec_ctl in L. destruct L as (_ & _ & _ & _ & Hs & _). auto.
+  - destruct (fs_exec o t fl) as [fl' t'] eqn:E. simpl. repeat split; auto; try discriminate.
+    left. pose proof (fs_exec_flags o t fl) as P. rewrite E in P. simpl in P. tauto.
+Qed.
+
+(* ================================================================== once-ness *)
+Definition isWS (a : action) : bool := match a with AWrite _ | AStoreReady => true | _ => false end.
+Definition shape (l : list action) : Prop :=
+  (exists ws, l = map AWrite ws ++ [AStoreReady]) \/ forallb (fun a => negb (isWS a)) l = true.
+Definition pend (t : thr) : Prop := In AStoreReady (t_cur t).
+
+Lemma shape_nil : shape []. Proof. right. reflexivity. Qed.
+
+Lemma shape_tail a r : shape (a :: r) -> shape r.
+Proof.
+  intros [(ws & H) | H].
+  - destruct ws as [|w ws]; simpl in H; inversion H; subst.
+    + apply shape_nil.
+    + left. exists ws. reflexivity.
+  - right. simpl in H. apply andb_true_iff in H. tauto.
+Qed.
+
+Lemma noWS_no_store l : forallb (fun a => negb (isWS a)) l = true -> ~ In AStoreReady l.
+Proof.
+  intros H I. rewrite forallb_forall in H. apply H in I. discriminate.
+Qed.
+
+Lemma in_store_map ws : ~ In AStoreReady (map AWrite ws).
+Proof. induction ws; simpl; intuition; discriminate. Qed.
+
+(* a call in progress that still has the publishing store ahead: only writes in between *)
+Lemma shape_pend_tail a r : shape (a :: r) -> In AStoreReady r -> exists f, a = AWrite f.
+Proof.
+  intros [(ws & H) | H] I.
+  - destruct ws as [|w ws]; simpl in H; inversion H; subst.
+    + contradiction.
+    + eauto.
+  - exfalso. simpl in H. apply andb_true_iff in H. destruct H as (_ & H).
+    eapply noWS_no_store; eauto.
+Qed.
+
+Lemma shape_head_ws a r : shape (a :: r) -> isWS a = true -> In AStoreReady (a :: r).
+Proof.
+  intros [(ws & H) | H] W.
+  - rewrite H. apply in_or_app. right. simpl. auto.
+  - simpl in H. apply andb_true_iff in H. destruct H as (H & _). rewrite W in H. discriminate.
+Qed.
+
+Lemma expand_rest_shape mv c a r : expand mv c = a :: r -> shape r.
+Proof.
+  destruct c, mv; simpl; intros H; inversion H; subst; try (right; reflexivity).
+  - left. exists [Floom; Fpid; Fapp; Fclockid; Floomdir; Ftmpdir; Fmove; Fprocdir; Fprocdir_final]. reflexivity.
+  - left. exists [Floom; Fpid; Fapp; Fclockid; Floomdir; Fmove; Fprocdir]. reflexivity.
+Qed.
+
+Lemma expand_head mv c a r : expand mv c = a :: r -> isWS a = false.
+Proof. destruct c, mv; simpl; intros H; inversion H; subst; reflexivity. Qed.
+
+Lemma expand_store_rest mv c a r : expand mv c = a :: r -> In AStoreReady r -> a = ACasInit.
+Proof.
+  destruct c, mv; simpl; intros H I; inversion H; subst; auto; simpl in I;
+    repeat (destruct I as [I|I]; [discriminate|]); contradiction.
+Qed.
+
+Lemma count_cons p e tr : count_ev p (e :: tr) = ((if p e then 1 else 0) + count_ev p tr)%nat.
+Proof. reflexivity. Qed.
+
+Lemma count_pos p e tr : In e tr -> p e = true -> (1 <= count_ev p tr)%nat.
+Proof.
+  induction tr; simpl; intros H P; [contradiction|]. destruct H as [H|H].
+  - subst. rewrite P. lia.
+  - specialize (IHtr H P). lia.
+Qed.
+
+Definition counts_ok (st : pst) (tr : list event) : Prop :=
+  match st with
+  | UNINIT => count_ev is_init_ok tr = 0 /\ count_ev is_init_ev tr = 0 /\ count_ev is_store tr = 0 /\ count_ev is_fini_ok tr = 0
+  | INIT => count_ev is_init_ok tr = 1 /\ count_ev is_store tr = 0 /\ count_ev is_fini_ok tr = 0
+  | READY => count_ev is_init_ok tr = 1 /\ count_ev is_store tr = 1 /\ count_ev is_fini_ok tr = 0
+  | GONE => count_ev is_init_ok tr = 1 /\ count_ev is_store tr = 1 /\ count_ev is_fini_ok tr = 1
+  end%nat.
+
+Record once_inv (c : config) : Prop := {
+  oi_shape : forall j t, nth_error (c_thr c) j = Some t -> shape (t_cur t);
+  oi_pend : forall j t, nth_error (c_thr c) j = Some t -> pend t ->
+              c_st c = INIT /\ In (EvCasInit j true) (c_trace c);
+  oi_uniq : forall j k tj tk, nth_error (c_thr c) j = Some tj -> nth_error (c_thr c) k = Some tk ->
+              pend tj -> pend tk -> j = k;
+  oi_counts : counts_ok (c_st c) (c_trace c);
+  oi_dead : forall j, (In (EvCasInit j false) (c_trace c) \/ In (EvCasFini j false) (c_trace c)
+                       \/ In (EvLoad j false) (c_trace c)) ->
+              exists t, nth_error (c_thr c) j = Some t /\ t_dead t = true
+}.
+
+Lemma once_init progs : once_inv (init progs).
+Proof.
+  split; simpl.
+  - intros j t N. rewrite nth_error_map in N. destruct (nth_error progs j); inversion N. apply shape_nil.
+  - intros j t N P. rewrite nth_error_map in N. destruct (nth_error progs j); inversion N; subst. inversion P.
+  - intros j k tj tk N _ P. rewrite nth_error_map in N. destruct (nth_error progs j); inversion N; subst. inversion P.
+  - repeat split; reflexivity.
+  - intros j [H|[H|H]]; contradiction.
+Qed.
+
+(* the thread that is about to step: what its new pending state can come from *)
+Lemma pend_after mv i t st fl r a rest cs :
+  tstep mv i t st fl = Some r -> fetch mv t = Some (a, rest, cs) -> shape (t_cur t) ->
+  pend (r_thr r) ->
+  (exists f, a = AWrite f /\ pend t) \/ (a = ACasInit /\ is_st st UNINIT = true).
+Proof.
+  intros T F Sh P.
+  destruct (tstep_ctl _ _ _ _ _ _ _ _ _ T F) as (_ & Hcur & _).
+  destruct (tstep_eff _ _ _ _ _ _ _ _ _ T F) as (_ & _ & Hfail & _).
+  unfold pend in P. destruct Hcur as [E|E]; rewrite E in P; [|contradiction].
+  destruct (fetch_inv _ _ _ _ _ F) as (_ & [(Hc & _) | (Hc & c0 & _ & He)]).
+  - rewrite Hc in Sh. destruct (shape_pend_tail _ _ Sh P) as (f & Ea). left. exists f. split; auto.
+    unfold pend. rewrite Hc. simpl. auto.
+  - right. assert (Ea := expand_store_rest _ _ _ _ He P). split; auto.
+    destruct (is_st st UNINIT) eqn:U; auto. exfalso.
+    subst a. simpl in Hfail. rewrite U in Hfail. destruct (Hfail eq_refl) as (_ & Hn).
+    rewrite Hn in E. subst rest. contradiction.
+Qed.
+
+Lemma store_pend mv t rest cs : fetch mv t = Some (AStoreReady, rest, cs) -> pend t.
+Proof.
+  intros F. destruct (fetch_inv _ _ _ _ _ F) as (_ & [(Hc & _) | (_ & c0 & _ & He)]).
+  - unfold pend. rewrite Hc. simpl. auto.
+  - apply expand_head in He. discriminate.
+Qed.
+
+Lemma write_pend mv t f rest cs : fetch mv t = Some (AWrite f, rest, cs) -> shape (t_cur t) -> pend t.
+Proof.
+  intros F Sh. destruct (fetch_inv _ _ _ _ _ F) as (_ & [(Hc & _) | (_ & c0 & _ & He)]).
+  - unfold pend. rewrite Hc in *. apply shape_head_ws; auto.
+  - apply expand_head in He. discriminate.
+Qed.
+
+Lemma once_step mv c i c' : once_inv c -> step mv c i = Some c' -> once_inv c'.
+Proof.
+  intros I Hstep.
+  destruct (step_inv _ _ _ _ Hstep) as (t & r & N & T & Hst & _ & Hthr & Htr).
+  assert (T0 := T). unfold tstep in T0.
+  destruct (fetch mv t) as [[[a rest] cs]|] eqn:F; [|discriminate]. clear T0.
+  destruct (tstep_eff _ _ _ _ _ _ _ _ _ T F) as (Hev & Hst' & Hfail & _ & _).
+  destruct (tstep_ctl _ _ _ _ _ _ _ _ _ T F) as (_ & Hcur & _).
+  assert (Sh : shape (t_cur t)) by (eapply oi_shape; eauto).
+  (* the store is executed only in state INIT *)
+  assert (StI : a = AStoreReady -> c_st c = INIT).
+  { intros ->. apply store_pend in F. eapply oi_pend; eauto. }
+  split.
+  - (* shape *)
+    intros j tj Nj. rewrite Hthr in Nj. destruct (Nat.eq_dec j i) as [->|Ne].
+    + rewrite (nth_set_eq _ _ _ _ N) in Nj. inversion Nj; subst tj.
+      destruct Hcur as [E|E]; rewrite E; [|apply shape_nil].
+      destruct (fetch_inv _ _ _ _ _ F) as (_ & [(Hc & _) | (_ & c0 & _ & He)]).
+      * rewrite Hc in Sh. eapply shape_tail; eauto.
+      * eapply expand_rest_shape; eauto.
+    + rewrite nth_set_neq in Nj by auto. eapply oi_shape; eauto.
+  - (* pending store => INIT and winner *)
+    intros j tj Nj P. rewrite Hthr in Nj. rewrite Htr, Hst, Hst', Hev. destruct (Nat.eq_dec j i) as [->|Ne].
+    + rewrite (nth_set_eq _ _ _ _ N) in Nj. inversion Nj; subst tj.
+      destruct (pend_after _ _ _ _ _ _ _ _ _ T F Sh P) as [(f & -> & Pt) | (-> & U)].
+      * destruct (oi_pend _ I _ _ N Pt) as (S1 & S2). simpl. auto.
+      * simpl. rewrite U. auto.
+    + rewrite nth_set_neq in Nj by auto. destruct (oi_pend _ I _ _ Nj P) as (S1 & S2).
+      split; [|simpl; auto].
+      destruct a; simpl; auto.
+      * rewrite S1. reflexivity.
+      * exfalso. apply Ne. symmetry. eapply (oi_uniq _ I i j t tj); eauto. eapply store_pend; eauto.
+      * rewrite S1. reflexivity.
+  - (* at most one pending *)
+    intros j k tj tk Nj Nk Pj Pk. rewrite Hthr in Nj, Nk.
+    assert (X : forall k tk, k <> i -> nth_error (c_thr c) k = Some tk -> pend tk -> pend (r_thr r) -> False).
+    { intros k0 tk0 Ne Nk0 Pk0 Pi.
+      destruct (pend_after _ _ _ _ _ _ _ _ _ T F Sh Pi) as [(f & -> & Pt) | (-> & U)].
+      - apply Ne. eapply (oi_uniq _ I k0 i); eauto.
+      - destruct (oi_pend _ I _ _ Nk0 Pk0) as (S1 & _). rewrite S1 in U. discriminate. }
+    destruct (Nat.eq_dec j i) as [->|Nej]; destruct (Nat.eq_dec k i) as [->|Nek]; auto.
+    + rewrite (nth_set_eq _ _ _ _ N) in Nj. inversion Nj; subst tj.
+      rewrite nth_set_neq in Nk by auto. exfalso. eauto.
+    + rewrite (nth_set_eq _ _ _ _ N) in Nk. inversion Nk; subst tk.
+      rewrite nth_set_neq in Nj by auto. exfalso. eauto.
+    + rewrite nth_set_neq in Nj, Nk by auto. eapply (oi_uniq _ I); eauto.
+  - (* counts *)
+    rewrite Htr, Hst, Hst', Hev. pose proof (oi_counts _ I) as C. unfold counts_ok in *.
+    destruct a; simpl; try (rewrite (StI eq_refl) in C);
+      destruct (c_st c); simpl in *; rewrite ?count_cons; simpl; try tauto; try (intuition lia).
+  - (* the refused are dead *)
+    intros j Hj. rewrite Htr, Hev in Hj. rewrite Hthr.
+    assert (Old : (In (EvCasInit j false) (c_trace c) \/ In (EvCasFini j false) (c_trace c)
+                   \/ In (EvLoad j false) (c_trace c)) ->
+                  exists t0, nth_error (set_nth i (r_thr r) (c_thr c)) j = Some t0 /\ t_dead t0 = true).
+    { intros H. destruct (oi_dead _ I j H) as (t0 & N0 & D0). exists t0. split; auto.
+      destruct (Nat.eq_dec i j) as [->|Ne].
+      - rewrite N in N0. inversion N0; subst t0. rewrite dead_stuck in T; auto. discriminate.
+      - rewrite nth_set_neq; auto. }
+    assert (New : st_fails a (c_st c) = true -> j = i ->
+                  exists t0, nth_error (set_nth i (r_thr r) (c_thr c)) j = Some t0 /\ t_dead t0 = true).
+    { intros Hf ->. exists (r_thr r). split; [eapply nth_set_eq; eauto|]. apply Hfail; auto. }
+    destruct Hj as [[Hj|Hj] | [[Hj|Hj] | [Hj|Hj]]]; auto.
+    + destruct a; simpl in Hj; inversion Hj; subst. apply New; auto. simpl.
+      match goal with H : is_st _ _ = false |- _ => rewrite H end. reflexivity.
+    + destruct a; simpl in Hj; inversion Hj; subst. apply New; auto. simpl.
+      match goal with H : is_st _ _ = false |- _ => rewrite H end. reflexivity.
+    + destruct a; simpl in Hj; inversion Hj; subst. apply New; auto. simpl.
+      match goal with H : is_st _ _ = false |- _ => rewrite H end. reflexivity.
+Qed.
+
+Lemma once_run mv progs s : once_inv (run mv (init progs) s).
+Proof. apply run_ind with (P := once_inv); eauto using once_step, once_init. Qed.
+
+Lemma count_two p e1 e2 tr : In e1 tr -> In e2 tr -> e1 <> e2 -> p e1 = true -> p e2 = true ->
+  (2 <= count_ev p tr)%nat.
+Proof.
+  induction tr as [|e tr IH]; simpl; intros H1 H2 Ne P1 P2; [contradiction|].
+  destruct H1 as [H1|H1]; destruct H2 as [H2|H2].
+  - congruence.
+  - subst e. rewrite P1. pose proof (count_pos p e2 tr H2 P2). lia.
+  - subst e. rewrite P2. pose proof (count_pos p e1 tr H1 P1). lia.
+  - specialize (IH H1 H2 Ne P1 P2). lia.
+Qed.
+
+(* ---- C11_init_once / C11_fini_once and companions ---- *)
+Theorem init_once mv progs s :
+  (count_ev is_init_ok (c_trace (run mv (init progs) s)) <= 1)%nat.
+Proof.
+  pose proof (oi_counts _ (once_run mv progs s)) as C. unfold counts_ok in C.
+  destruct (c_st (run mv (init progs) s)); lia.
+Qed.
+
+Theorem init_winner_unique mv progs s i j :
+  let tr := c_trace (run mv (init progs) s) in
+  In (EvCasInit i true) tr -> In (EvCasInit j true) tr -> i = j.
+Proof.
+  intros tr Hi Hj. destruct (Nat.eq_dec i j) as [|Ne]; auto. exfalso.
+  assert (2 <= count_ev is_init_ok tr)%nat.
+  { eapply (count_two is_init_ok (EvCasInit i true) (EvCasInit j true)); eauto. congruence. }
+  pose proof (init_once mv progs s). unfold tr in *. lia.
+Qed.
+
+(* as soon as one ovni_proc_init call has executed its CAS, exactly one has won *)
+Theorem init_some mv progs s :
+  let tr := c_trace (run mv (init progs) s) in
+  (1 <= count_ev is_init_ev tr)%nat -> count_ev is_init_ok tr = 1%nat.
+Proof.
+  intros tr H. pose proof (oi_counts _ (once_run mv progs s)) as C. unfold counts_ok in C. fold tr in C.
+  destruct (c_st (run mv (init progs) s)); lia.
+Qed.
+
+(* every call that loses a CAS (or fails the READY check) has died: the thread is stopped for ever *)
+Theorem refused_dead mv progs s j :
+  let c := run mv (init progs) s in
+  In (EvCasInit j false) (c_trace c) \/ In (EvCasFini j false) (c_trace c) \/ In (EvLoad j false) (c_trace c) ->
+  exists t, nth_error (c_thr c) j = Some t /\ t_dead t = true.
+Proof. intros c H. exact (oi_dead _ (once_run mv progs s) j H). Qed.
+
+Theorem fini_once mv progs s :
+  (count_ev is_fini_ok (c_trace (run mv (init progs) s)) <= 1)%nat.
+Proof.
+  pose proof (oi_counts _ (once_run mv progs s)) as C. unfold counts_ok in C.
+  destruct (c_st (run mv (init progs) s)); lia.
+Qed.
+
+Theorem fini_winner_unique mv progs s i j :
+  let tr := c_trace (run mv (init progs) s) in
+  In (EvCasFini i true) tr -> In (EvCasFini j true) tr -> i = j.
+Proof.
+  intros tr Hi Hj. destruct (Nat.eq_dec i j) as [|Ne]; auto. exfalso.
+  assert (2 <= count_ev is_fini_ok tr)%nat.
+  { eapply (count_two is_fini_ok (EvCasFini i true) (EvCasFini j true)); eauto. congruence. }
+  pose proof (fini_once mv progs s). unfold tr in *. lia.
+Qed.
+
+(* a successful ovni_proc_fini needs a completed ovni_proc_init *)
+Theorem fini_needs_ready mv progs s :
+  let tr := c_trace (run mv (init progs) s) in
+  (1 <= count_ev is_fini_ok tr)%nat -> count_ev is_init_ok tr = 1%nat /\ count_ev is_store tr = 1%nat.
+Proof.
+  intros tr H. pose proof (oi_counts _ (once_run mv progs s)) as C. unfold counts_ok in C. fold tr in C.
+  destruct (c_st (run mv (init progs) s)); lia.
+Qed.
+
+(* the state of the process is a function of the event counts *)
+Theorem st_counts mv progs s : let c := run mv (init progs) s in counts_ok (c_st c) (c_trace c).
+Proof. exact (oi_counts _ (once_run mv progs s)). Qed.
+
+(* ================================================================== no race *)
+Definition acqlike (a : action) : bool :=
+  match a with
+  | ALoadReady | ACasFini | AStoreReady | ALocal LChkReady | ALocal LChkLive => true
+  | _ => false
+  end.
+Definition sees (l : list action) : bool := existsb acqlike l.
+Fixpoint prot (seen : bool) (l : list action) : bool :=
+  match l with
+  | [] => true
+  | a :: r =>
+    match a with
+    | ARead _ | ALocal LSetReady => seen && prot seen r
+    | _ => if acqlike a then prot true r else prot seen r
+    end
+  end.
+
+Definition tguard (t : thr) : Prop :=
+  (t_ready t = true -> t_seen t = true) /\
+  prot (t_seen t) (t_cur t) = true /\
+  guardedb (t_seen t || sees (t_cur t)) (t_todo t) = true.
+
+Lemma prot_true l : prot true l = true.
+Proof. induction l as [|a l IH]; simpl; auto. destruct a; simpl; auto; try destruct l0; simpl; auto. Qed.
+
+Lemma guardedb_mono p : forall s, guardedb s p = true -> guardedb true p = true.
+Proof.
+  induction p as [|c p IH]; simpl; auto. intros s H. destruct c; auto;
+    apply andb_true_iff in H; destruct H as (_ & H); simpl; eauto.
+Qed.
+
+Lemma expand_guard mv s c cs : guardedb s (c :: cs) = true ->
+  prot s (expand mv c) = true /\ guardedb (s || sees (expand mv c)) cs = true.
+Proof.
+  intros H. destruct c; simpl in H;
+    try (split; [destruct mv, s; reflexivity | destruct mv, s; simpl; exact H]).
+  - apply andb_true_iff in H. destruct H as (-> & H). split; [apply prot_true|exact H].
+  - apply andb_true_iff in H. destruct H as (-> & H). split; [apply prot_true|exact H].
+Qed.
+
+Lemma local_exec_ready l t t' : local_exec l t = LOk t' ->
+  (t_ready t' = true -> t_ready t = true \/ l = LSetReady) /\
+  (l = LChkReady \/ l = LChkLive -> t_ready t = true).
+Proof.
+  destruct l; simpl; intros H;
+    repeat match type of H with
+           | context [if ?b then _ else _] => destruct b eqn:?
+           end; try discriminate; inversion H; subst; simpl; split; auto;
+    try (intros [X|X]; discriminate); try (intros; discriminate); try (intros; congruence).
+Qed.
+
+Lemma local_exec_skip l t : local_exec l t = LSkip -> t_ready t = true.
+Proof.
+  destruct l; simpl; intros H;
+    repeat match type of H with
+           | context [if ?b then _ else _] => destruct b eqn:?
+           end; try discriminate; auto.
+Qed.
+
+(* the virtual "rest of the current call" right before the head action executes *)
+Lemma guard_pre mv t a rest cs : tguard t -> fetch mv t = Some (a, rest, cs) ->
+  prot (t_seen t) (a :: rest) = true /\ guardedb (t_seen t || sees (a :: rest)) cs = true.
+Proof.
+  intros (_ & P & G) F. destruct (fetch_inv _ _ _ _ _ F) as (_ & [(Hc & Ht) | (Hc & c0 & Ht & He)]).
+  - rewrite Hc in *. subst cs. auto.
+  - rewrite Hc, Ht in G. simpl in G. rewrite orb_false_r in G. rewrite <- He. apply expand_guard. exact G.
+Qed.
+
+Lemma tguard_step mv i t st fl r : tstep mv i t st fl = Some r -> tguard t ->
+  t_dead (r_thr r) = false -> tguard (r_thr r).
+Proof.
+  intros T G D. assert (T0 := T). unfold tstep in T0.
+  destruct (fetch mv t) as [[[a rest] cs]|] eqn:F; [|discriminate].
+  destruct (guard_pre _ _ _ _ _ G F) as (P0 & G0). destruct G as (R0 & _ & _).
+  inversion T0 as [R]; clear T0. rewrite <- R in D.
+  unfold tguard.
+  destruct a; simpl in *.
+  - destruct (is_st st UNINIT); simpl in *; [|discriminate]. auto.
+  - split; auto. split; [apply prot_true|]. eapply guardedb_mono; eauto.
+  - destruct (is_st st READY); simpl in *; [|discriminate].
+    split; auto. split; [apply prot_true|]. eapply guardedb_mono; eauto.
+  - destruct (is_st st READY); simpl in *; [|discriminate].
+    split; auto. split; [apply prot_true|]. eapply guardedb_mono; eauto.
+  - auto.
+  - apply andb_true_iff in P0. destruct P0 as (S0 & P0). auto.
+  - destruct (local_exec l t) as [t1| |] eqn:L; simpl in *; [| |discriminate].
+    + destruct (local_exec_ctl _ _ _ L) as (_ & _ & _ & _ & Hs & _).
+      destruct (local_exec_ready _ _ _ L) as (Hr1 & Hr2).
+      rewrite Hs.
+      assert (Hl : (l = LChkReady \/ l = LChkLive) \/ l = LSetReady \/ (acqlike (ALocal l) = false /\ l <> LSetReady)).
+      { destruct l; simpl; auto; right; right; split; auto; discriminate. }
+      destruct Hl as [Hl | [Hl | (Hl1 & Hl2)]].
+      * assert (Sn : t_seen t = true) by (apply R0; auto).
+        rewrite Sn in *. split; auto. split; [apply prot_true|]. eapply guardedb_mono; eauto.
+      * subst l. simpl in P0. apply andb_true_iff in P0. destruct P0 as (S0 & P0).
+        rewrite S0 in *. split; auto.
+      * split.
+        { intros H. destruct (Hr1 H) as [X|X]; [apply R0; exact X | contradiction]. }
+        destruct l; simpl in *; try discriminate; try contradiction; auto.
+    + apply local_exec_skip in L. rewrite (R0 L) in *. auto.
+  - destruct (fs_exec o t fl) as [fl' t1] eqn:E. simpl in *.
+    pose proof (fs_exec_flags o t fl) as Fl. rewrite E in Fl. simpl in Fl.
+    destruct Fl as (F1 & F2 & _). rewrite F1, F2. auto.
+Qed.
+
+Lemma guard_read mv t f rest cs : tguard t -> fetch mv t = Some (ARead f, rest, cs) -> t_seen t = true.
+Proof.
+  intros G F. destruct (guard_pre _ _ _ _ _ G F) as (P0 & _). simpl in P0.
+  apply andb_true_iff in P0. tauto.
+Qed.
+
+Definition acq_ev (j : nat) (e : event) : Prop :=
+  e = EvStoreReady j \/ e = EvLoad j true \/ e = EvCasFini j true.
+
+(* what must have happened before an event (old = the trace before it, newest first) *)
+Definition conds (e : event) (old : list event) : Prop :=
+  match e with
+  | EvR j _ => exists e', In e' old /\ acq_ev j e'
+  | EvLoad j true | EvCasFini j true => count_ev is_store old = 1%nat
+  | EvW i _ | EvStoreReady i => count_ev is_store old = 0%nat /\ In (EvCasInit i true) old
+  | _ => True
+  end.
+Fixpoint hist (tr : list event) : Prop :=
+  match tr with [] => True | e :: old => conds e old /\ hist old end.
+
+Record race_inv (c : config) : Prop := {
+  ri_guard : forall j t, nth_error (c_thr c) j = Some t -> t_dead t = false -> tguard t;
+  ri_unseen : c_st c = UNINIT \/ c_st c = INIT ->
+              forall j t, nth_error (c_thr c) j = Some t -> t_seen t = false;
+  ri_seen : forall j t, nth_error (c_thr c) j = Some t -> t_seen t = true ->
+            exists e, In e (c_trace c) /\ acq_ev j e;
+  ri_hist : hist (c_trace c)
+}.
+
+Definition conformant (progs : list (list call)) : Prop :=
+  forall p, In p progs -> guardedb false p = true.
+
+Lemma race_init progs : conformant progs -> race_inv (init progs).
+Proof.
+  intros Cf. split; simpl.
+  - intros j t N _. rewrite nth_error_map in N. destruct (nth_error progs j) as [p|] eqn:E; inversion N; subst.
+    unfold tguard, thr0. simpl. repeat split; auto; try discriminate.
+    apply Cf. eapply nth_error_In; eauto.
+  - intros _ j t N. rewrite nth_error_map in N. destruct (nth_error progs j); inversion N; reflexivity.
+  - intros j t N S. rewrite nth_error_map in N. destruct (nth_error progs j); inversion N; subst. discriminate.
+  - exact I.
+Qed.
+
+Lemma is_st_eq a b : is_st a b = true -> a = b.
+Proof. destruct a, b; simpl; intros; auto; discriminate. Qed.
+
+Lemma st_of_low a st : (st_of a st = UNINIT \/ st_of a st = INIT) ->
+  (st = UNINIT \/ st = INIT) /\ st_acquires a st = false.
+Proof. destruct a, st; simpl; intuition discriminate. Qed.
+
+Lemma acquires_ev a i st : st_acquires a st = true -> acq_ev i (ev_of a i st).
+Proof.
+  unfold acq_ev. destruct a; simpl; intros H; try discriminate; try rewrite H; auto.
+Qed.
+
+Lemma race_step mv c i c' : once_inv c -> race_inv c -> step mv c i = Some c' -> race_inv c'.
+Proof.
+  intros O I Hstep.
+  destruct (step_inv _ _ _ _ Hstep) as (t & r & N & T & Hst & _ & Hthr & Htr).
+  assert (T0 := T). unfold tstep in T0.
+  destruct (fetch mv t) as [[[a rest] cs]|] eqn:F; [|discriminate]. clear T0.
+  destruct (tstep_eff _ _ _ _ _ _ _ _ _ T F) as (Hev & Hst' & Hfail & Hseen & Hacq).
+  destruct (fetch_inv _ _ _ _ _ F) as (Dt & _).
+  assert (Gt : tguard t) by (eapply ri_guard; eauto).
+  assert (Sh : shape (t_cur t)) by (eapply oi_shape; eauto).
+  split.
+  - intros j tj Nj Dj. rewrite Hthr in Nj. destruct (Nat.eq_dec j i) as [->|Ne].
+    + rewrite (nth_set_eq _ _ _ _ N) in Nj. inversion Nj; subst tj. eapply tguard_step; eauto.
+    + rewrite nth_set_neq in Nj by auto. eapply ri_guard; eauto.
+  - rewrite Hst, Hst'. intros Low j tj Nj. destruct (st_of_low _ _ Low) as (Low0 & NA).
+    rewrite Hthr in Nj. destruct (Nat.eq_dec j i) as [->|Ne].
+    + rewrite (nth_set_eq _ _ _ _ N) in Nj. inversion Nj; subst tj.
+      destruct Hseen as [E | (_ & E)]; [|congruence]. rewrite E. eapply ri_unseen; eauto.
+    + rewrite nth_set_neq in Nj by auto. eapply ri_unseen; eauto.
+  - intros j tj Nj Sj. rewrite Htr, Hev. rewrite Hthr in Nj. destruct (Nat.eq_dec j i) as [->|Ne].
+    + rewrite (nth_set_eq _ _ _ _ N) in Nj. inversion Nj; subst tj.
+      destruct Hseen as [E | (_ & E)].
+      * rewrite E in Sj. destruct (ri_seen _ I _ _ N Sj) as (e & He & Ha). exists e. simpl. auto.
+      * exists (ev_of a i (c_st c)). split; [simpl; auto|]. apply acquires_ev. exact E.
+    + rewrite nth_set_neq in Nj by auto.
+      destruct (ri_seen _ I _ _ Nj Sj) as (e & He & Ha). exists e. simpl. auto.
+  - rewrite Htr, Hev. simpl. split; [|eapply ri_hist; eauto].
+    pose proof (oi_counts _ O) as C. unfold counts_ok in C.
+    destruct a; simpl; auto.
+    + (* the publishing store *)
+      apply store_pend in F. destruct (oi_pend _ O _ _ N F) as (S1 & S2). rewrite S1 in C. tauto.
+    + destruct (is_st (c_st c) READY) eqn:E; auto. apply is_st_eq in E. rewrite E in C. tauto.
+    + destruct (is_st (c_st c) READY) eqn:E; auto. apply is_st_eq in E. rewrite E in C. tauto.
+    + (* a field write *)
+      eapply write_pend in F; eauto. destruct (oi_pend _ O _ _ N F) as (S1 & S2). rewrite S1 in C. tauto.
+    + (* a field read *)
+      eapply ri_seen; eauto. eapply guard_read; eauto.
+Qed.
+
+Lemma race_run mv progs s : conformant progs ->
+  once_inv (run mv (init progs) s) /\ race_inv (run mv (init progs) s).
+Proof.
+  intros Cf. apply run_ind with (P := fun c => once_inv c /\ race_inv c).
+  - intros c i c' (O & R) St. split; [eapply once_step|eapply race_step]; eauto.
+  - split; [apply once_init|apply race_init; auto].
+Qed.
+
+Lemma hist_mid l1 : forall e l2, hist (l1 ++ e :: l2) -> conds e l2.
+Proof. induction l1; simpl; intros e l2 H; [tauto|]. apply IHl1. tauto. Qed.
+
+Lemma count_ex p l : (1 <= count_ev p l)%nat -> exists e, In e l /\ p e = true.
+Proof.
+  induction l as [|x l IH]; simpl; intros H; [lia|].
+  destruct (p x) eqn:E.
+  - exists x. auto.
+  - destruct IH as (e & He & Pe); [lia|]. exists e. auto.
+Qed.
+
+Lemma count_zero p l : (forall e, In e l -> p e = false) -> count_ev p l = 0%nat.
+Proof.
+  induction l as [|x l IH]; simpl; intros H; auto.
+  rewrite (H x) by auto. rewrite IH; auto.
+Qed.
+
+Lemma count_app p l1 l2 : count_ev p (l1 ++ l2) = (count_ev p l1 + count_ev p l2)%nat.
+Proof. induction l1; simpl; auto. rewrite IHl1. lia. Qed.
+
+(* every write is by the thread that won the CAS, before the publishing store *)
+Lemma hist_write_winner tr i f : hist tr -> In (EvW i f) tr -> In (EvCasInit i true) tr.
+Proof.
+  intros H I. apply in_split in I. destruct I as (l1 & l2 & ->).
+  apply hist_mid in H. simpl in H. apply in_or_app. right. simpl. tauto.
+Qed.
+
+Lemma hist_no_write_after_store tr x w z : hist tr -> tr = x ++ EvStoreReady w :: z ->
+  count_ev is_write x = 0%nat.
+Proof.
+  intros H ->. apply count_zero. intros e He.
+  destruct e; auto. exfalso.
+  apply in_split in He. destruct He as (p1 & p2 & ->).
+  rewrite <- app_assoc in H. simpl in H. apply hist_mid in H. simpl in H. destruct H as (H & _).
+  rewrite count_app in H. simpl in H. lia.
+Qed.
+
+(* C11_no_race: an explicit happens-before chain from every field write to every read by another thread *)
+Theorem no_race mv progs s : conformant progs ->
+  let tr := c_trace (run mv (init progs) s) in
+  forall after before j g, tr = after ++ EvR j g :: before ->
+  forall i f, In (EvW i f) tr -> i <> j ->
+  exists d e c b a,
+    before = d ++ e :: c ++ EvStoreReady i :: b ++ EvW i f :: a /\
+    (e = EvLoad j true \/ e = EvCasFini j true) /\
+    count_ev is_write (after ++ EvR j g :: d ++ e :: c) = 0%nat.
+Proof.
+  intros Cf tr after before j g Etr i f Hw Nij.
+  destruct (race_run mv progs s Cf) as (O & R). pose proof (ri_hist _ R) as H. fold tr in H.
+  assert (Wi : In (EvCasInit i true) tr) by (eapply hist_write_winner; eauto).
+  assert (Hr := H). rewrite Etr in Hr. apply hist_mid in Hr. simpl in Hr.
+  destruct Hr as (e & He & Ha). apply in_split in He. destruct He as (d & y & ->).
+  assert (Hy : conds e y).
+  { rewrite Etr in H. replace (after ++ EvR j g :: d ++ e :: y) with ((after ++ EvR j g :: d) ++ e :: y) in H
+      by (rewrite <- app_assoc; reflexivity). apply hist_mid in H. exact H. }
+  assert (Iny : forall x, In x y -> In x tr).
+  { intros x Hx. rewrite Etr. apply in_or_app. right. right. apply in_or_app. right. right. exact Hx. }
+  destruct Ha as [-> | Ha].
+  { (* the reader's acquire would be the publishing store itself: then it is the writer *)
+    exfalso. simpl in Hy. destruct Hy as (_ & Hy). apply Nij.
+    eapply (init_winner_unique mv progs s); [exact Wi | apply Iny; exact Hy]. }
+  assert (Cs : count_ev is_store y = 1%nat) by (destruct Ha as [-> | ->]; exact Hy).
+  destruct (count_ex is_store y) as (se & Hse & Pse); [lia|].
+  destruct se; try discriminate. rename i0 into w.
+  apply in_split in Hse. destruct Hse as (c0 & z & ->).
+  assert (Etr2 : tr = (after ++ EvR j g :: d ++ e :: c0) ++ EvStoreReady w :: z).
+  { rewrite Etr. rewrite <- app_assoc. simpl. rewrite <- app_assoc. reflexivity. }
+  assert (Hsz : conds (EvStoreReady w) z).
+  { rewrite Etr2 in H. apply hist_mid in H. exact H. }
+  simpl in Hsz. destruct Hsz as (_ & Hwz).
+  assert (w = i).
+  { eapply (init_winner_unique mv progs s); eauto. fold tr. rewrite Etr2.
+    apply in_or_app. right. right. exact Hwz. }
+  subst w.
+  assert (NW : count_ev is_write (after ++ EvR j g :: d ++ e :: c0) = 0%nat).
+  { eapply hist_no_write_after_store; eauto. }
+  assert (Wz : In (EvW i f) z).
+  { rewrite Etr2 in Hw. apply in_app_or in Hw. destruct Hw as [Hw | [Hw | Hw]]; auto.
+    - pose proof (count_pos is_write _ _ Hw eq_refl). lia.
+    - discriminate. }
+  apply in_split in Wz. destruct Wz as (b & a & ->).
+  exists d, e, c0, b, a. repeat split; auto.
+Qed.
+
+(* all field writes are by one thread - the winner of the CAS - and none happens after READY is published *)
+Theorem writes_by_winner mv progs s i f : conformant progs ->
+  let tr := c_trace (run mv (init progs) s) in
+  In (EvW i f) tr -> In (EvCasInit i true) tr.
+Proof.
+  intros Cf tr Hw. destruct (race_run mv progs s Cf) as (_ & R). eapply hist_write_winner; eauto.
+  exact (ri_hist _ R).
+Qed.
+
+Theorem no_write_after_ready mv progs s x w z : conformant progs ->
+  c_trace (run mv (init progs) s) = x ++ EvStoreReady w :: z -> count_ev is_write x = 0%nat.
+Proof.
+  intros Cf E. destruct (race_run mv progs s Cf) as (_ & R).
+  eapply hist_no_write_after_store; eauto. exact (ri_hist _ R).
+Qed.
+
+(* ---- after READY has been published, the first ovni_proc_fini wins ---- *)
+Definition fini_inv (c : config) : Prop :=
+  c_st c = READY -> forall x w z, c_trace c = x ++ EvStoreReady w :: z -> count_ev is_fini_ev x = 0%nat.
+
+Lemma fini_inv_step mv c i c' : once_inv c -> fini_inv c -> step mv c i = Some c' -> fini_inv c'.
+Proof.
+  intros O I Hstep.
+  destruct (step_inv _ _ _ _ Hstep) as (t & r & N & T & Hst & _ & Hthr & Htr).
+  assert (T0 := T). unfold tstep in T0.
+  destruct (fetch mv t) as [[[a rest] cs]|] eqn:F; [|discriminate]. clear T0.
+  destruct (tstep_eff _ _ _ _ _ _ _ _ _ T F) as (Hev & Hst' & _).
+  intros R x w z E. rewrite Htr in E. rewrite Hst, Hst' in R.
+  destruct x as [|e0 x']; [reflexivity|]. simpl in E. inversion E as [[E0 E1]].
+  pose proof (oi_counts _ O) as C. unfold counts_ok in C.
+  assert (S1 : (1 <= count_ev is_store (c_trace c))%nat).
+  { rewrite E1. rewrite count_app. simpl. lia. }
+  assert (NS : a <> AStoreReady).
+  { intros ->. apply store_pend in F. destruct (oi_pend _ O _ _ N F) as (S2 & _). rewrite S2 in C. lia. }
+  assert (St : c_st c = READY /\ is_fini_ev (ev_of a i (c_st c)) = false).
+  { destruct (c_st c) eqn:Ec; try lia; destruct a; simpl in *; try discriminate; auto; congruence. }
+  destruct St as (St & Nf). rewrite count_cons. rewrite Hev, Nf. simpl. eapply I; eauto.
+Qed.
+
+Theorem fini_some mv progs s x w z :
+  let tr := c_trace (run mv (init progs) s) in
+  tr = x ++ EvStoreReady w :: z -> (1 <= count_ev is_fini_ev x)%nat -> count_ev is_fini_ok tr = 1%nat.
+Proof.
+  intros tr E H.
+  assert (P : once_inv (run mv (init progs) s) /\ fini_inv (run mv (init progs) s)).
+  { apply run_ind with (P := fun c => once_inv c /\ fini_inv c).
+    - intros c i c' (O & Fi) St. split; [eapply once_step|eapply fini_inv_step]; eauto.
+    - split; [apply once_init|]. intros R. discriminate. }
+  destruct P as (O & Fi). pose proof (oi_counts _ O) as C. unfold counts_ok in C. fold tr in C.
+  assert (S1 : (1 <= count_ev is_store tr)%nat).
+  { rewrite E. rewrite count_app. simpl. lia. }
+  destruct (c_st (run mv (init progs) s)) eqn:Ec; try lia.
+  specialize (Fi Ec x w z E). lia.
+Qed.
+
+(* ---- a refused call is logged as such, and the thread never moves again ---- *)
+Lemma tstep_dead_logged mv i t st fl r : tstep mv i t st fl = Some r -> t_dead (r_thr r) = true ->
+  exists o, t_out (r_thr r) = false :: o.
+Proof.
+  unfold tstep. destruct (fetch mv t) as [[[a rest] cs]|] eqn:F; [|discriminate].
+  destruct (fetch_inv _ _ _ _ _ F) as (Dt & _). intros H D. inversion H; subst; clear H.
+  destruct a; simpl in *.
+  - destruct (is_st st UNINIT); simpl in *; [congruence|eauto].
+  - congruence.
+  - destruct (is_st st READY); simpl in *; [congruence|eauto].
+  - destruct (is_st st READY); simpl in *; [congruence|eauto].
+  - congruence.
+  - congruence.
+  - destruct (local_exec l t) eqn:L; simpl in *; eauto; try congruence.
+    apply local_exec_ctl in L. destruct L as (_ & _ & Hd & _). congruence.
+  - destruct (fs_exec o t fl) as [fl' t'] eqn:E. simpl in *.
+    pose proof (fs_exec_flags o t fl) as Fl. rewrite E in Fl. simpl in Fl. destruct Fl as (_ & _ & Hd & _). congruence.
+Qed.
+
+Theorem dead_logged mv progs s j t :
+  nth_error (c_thr (run mv (init progs) s)) j = Some t -> t_dead t = true ->
+  (exists o, t_out t = false :: o) /\ forall st fl, tstep mv j t st fl = None.
+Proof.
+  intros N D. split; [|intros; apply dead_stuck; auto].
+  revert j t N D. apply run_ind with
+    (P := fun c => forall j t, nth_error (c_thr c) j = Some t -> t_dead t = true -> exists o, t_out t = false :: o).
+  - intros c i c' IH Hstep j t N D.
+    destruct (step_inv _ _ _ _ Hstep) as (ti & r & Ni & T & _ & _ & Hthr & _).
+    rewrite Hthr in N. destruct (Nat.eq_dec j i) as [->|Ne].
+    + rewrite (nth_set_eq _ _ _ _ Ni) in N. inversion N; subst t. eapply tstep_dead_logged; eauto.
+    + rewrite nth_set_neq in N by auto. eauto.
+  - intros j t N D. simpl in N. rewrite nth_error_map in N. destruct (nth_error progs j); inversion N; subst. discriminate.
+Qed.
+
+(* ---- ISOLATION ---- *)
+Theorem isolation mv progs s i p t :
+  tids_disjoint progs ->
+  let c := run mv (init progs) s in
+  nth_error progs i = Some p -> nth_error (c_thr c) i = Some t -> thr_done t = true ->
+  (t, fs_get (t_tid t) (c_fs c)) = seq_result mv p.
+Proof. intros TD c Np Nt Dn. exact (proj2 (isolation_gen mv UNINIT [] progs s i p t TD Np Nt) Dn). Qed.
+
+Theorem isolation_prefix mv progs s i p t :
+  tids_disjoint progs ->
+  let c := run mv (init progs) s in
+  nth_error progs i = Some p -> nth_error (c_thr c) i = Some t -> t_dead t = false ->
+  exists k, asteps mv k (thr0 p, None) = Some (t, fs_get (t_tid t) (c_fs c)).
+Proof. intros TD c Np Nt Dn. exact (proj1 (isolation_gen mv UNINIT [] progs s i p t TD Np Nt) Dn). Qed.
+
+(* the same thread program run alone in a process that somebody initialised: same result *)
+Theorem isolation_alone mv progs s i p t w s1 t1 :
+  tids_disjoint progs ->
+  let c := run mv (init progs) s in
+  let c1 := run mv (ready_cfg w [p]) s1 in
+  nth_error progs i = Some p -> nth_error (c_thr c) i = Some t -> thr_done t = true ->
+  nth_error (c_thr c1) 0 = Some t1 -> thr_done t1 = true ->
+  (t, fs_get (t_tid t) (c_fs c)) = (t1, fs_get (t_tid t1) (c_fs c1)).
+Proof.
+  intros TD c c1 Np Nt Dn N1 D1.
+  transitivity (seq_result mv p); [exact (isolation mv progs s i p t TD Np Nt Dn)|].
+  assert (TD1 : tids_disjoint [p]).
+  { intros a b pa pb z Hab Na Nb. destruct a as [|[|a]], b as [|[|b]]; simpl in *; try discriminate; congruence. }
+  symmetry. exact (proj2 (isolation_gen mv READY _ [p] s1 0 p t1 TD1 eq_refl N1) D1).
+Qed.
